@@ -506,6 +506,10 @@ func c14Child(a *ChildArgs) {
 				"SELECT CASE x WHEN f(1) THEN 1 WHEN g(2) THEN 2 WHEN h(3) THEN 3 END FROM t",
 				"ALTER TABLE users RENAME TO customers", "ALTER TABLE s.users RENAME COLUMN a TO b", "ALTER TABLE users ADD COLUMN c INT",
 				"SELECT ARRAY[1, f(2), (SELECT z FROM q)] , ARRAY(SELECT y FROM r) FROM t",
+				"SELECT department, MODE() WITHIN GROUP (ORDER BY salary, g(bonus)) FROM emp GROUP BY department",
+				"SELECT f() FILTER (WHERE a > (SELECT m FROM w)), NOW(), COUNT(*) FILTER (WHERE h(b)) FROM t",
+				"SELECT name FROM users UNION SELECT NULL FROM information_schema.tables UNION ALL SELECT name FROM archived EXCEPT SELECT x FROM y",
+				"SELECT RANK() OVER (PARTITION BY f(a) ORDER BY g(b)), ROW_NUMBER() OVER () FROM t",
 			} {
 				c14Tree(a, sql)
 			}
